@@ -204,6 +204,33 @@ pub fn gen(seed: u64, thorough: bool, _only: Option<u64>, out: &mut Out) {
       }
     }
   }
+  // an honest share whose Shamir chunk carries 1..23 surplus bytes (an incomplete further element, which the Shamir
+  // decoder ignores) with a consistent length prefix; and minimal strings all of whose length prefixes are satisfied
+  if let Some(e) = shares.first() {
+    if let Some(f) = split_share(e) {
+      for extra in [1usize, 4, 23] {
+        let mut g = ShareFields { a: f.a.clone(), s: f.s.clone(), c: f.c.clone(), d: f.d.clone(), j: f.j.clone() };
+        g.s.extend(match extra { 4 => vec![36u8, 0, 0, 0], n => vec![0xabu8; n] });
+        emit("adss", &join_share(&g), out);
+      }
+    }
+  }
+  for mac in [0usize, 1, 23, 40, 63, 64] {
+    for with_x in [false, true] {
+      let mut b = vec![2u8, 0, 0, 0];
+      if with_x {
+        b.extend(24u32.to_le_bytes());
+        b.extend(crate::g_fp::le24(0, 5));
+      } else {
+        b.extend(0u32.to_le_bytes());
+      }
+      b.extend(0u32.to_le_bytes());
+      b.extend(0u32.to_le_bytes());
+      b.extend(vec![7u8; mac]);
+      emit("adss", &b, out);
+    }
+  }
+  emit("adss", &vec![0u8; 16], out);
   for (i, e) in msgs.iter().enumerate() {
     emit("star", e, out);
     mutate_all("star", e, &mut r, thorough && i < 4, out);
